@@ -95,6 +95,7 @@ func (p propC04) Gen(r *Rng, tier string) *World {
 	w.Cfg = g.C
 	w.Cfg.ViaDirect = r.P(0.2)
 	w.Cfg.DirStyle = r.Intn(6)
+	w.Cfg.ViaAPI = r.P(0.4)
 	w.Cfg.Event = []string{"", "", "", "", "report"}[r.Intn(5)]
 	m1 := r.Intn(16)
 	w.Masks = []int{m1, []int{0, 15, (m1 + 5) % 16}[r.Intn(3)]}
